@@ -115,7 +115,8 @@ type End struct {
 	Writes          int
 	peerGoneWrite   int
 
-	KeepaliveWrites int // writes of a lone "\n"
+	KeepaliveWrites int // writes of a lone "\n" (or whatever IsKeepalive recognises)
+	IsKeepalive     func(p []byte) bool
 	WriteLog        []WriteRec
 	TrackWrites     bool
 	TotalWritten    int64 // bytes accepted from local writers
@@ -244,11 +245,12 @@ func (c *End) Write(p []byte) (int, error) {
 	c.mu.Lock()
 	defer c.mu.Unlock()
 	n, err := c.writeLocked(p)
-	if len(p) == 1 && p[0] == '\n' {
+	ka := c.isKA(p)
+	if ka {
 		c.KeepaliveWrites++
 	}
 	if c.TrackWrites {
-		c.WriteLog = append(c.WriteLog, WriteRec{At: c.e.Now(), N: n, Len: len(p), Err: err != nil, KA: len(p) == 1 && p[0] == '\n'})
+		c.WriteLog = append(c.WriteLog, WriteRec{At: c.e.Now(), N: n, Len: len(p), Err: err != nil, KA: ka})
 	}
 	if c.OnWrite != nil {
 		c.OnWrite(p, n, err)
@@ -264,7 +266,7 @@ func (c *End) writeLocked(p []byte) (int, error) {
 	if c.writeBroken {
 		return 0, &net.OpError{Op: "write", Net: "tcp", Err: os.NewSyscallError("write", syscall.EPIPE)}
 	}
-	isKA := len(p) == 1 && p[0] == '\n'
+	isKA := c.isKA(p)
 	if isKA {
 		c.kaSeen++
 	}
@@ -309,6 +311,16 @@ func (c *End) push(p []byte) {
 	peer.mu.Unlock()
 	c.TotalWritten += int64(len(p))
 }
+
+func (c *End) isKA(p []byte) bool {
+	if c.IsKeepalive != nil {
+		return c.IsKeepalive(p)
+	}
+	return len(p) == 1 && p[0] == '\n'
+}
+
+// WSPing recognises a WebSocket ping frame written in one piece.
+func WSPing(p []byte) bool { return len(p) >= 2 && p[0] == 0x89 }
 
 func (c *End) Close() error {
 	c.mu.Lock()
